@@ -53,6 +53,7 @@ ATOMS: dict[str, Callable[[ConnWorld], bytes]] = {
     "PR": lambda w: w.dframe(mk("PingRequest")),
     "PRESP": lambda w: w.dframe(mk("PingResponse")),
     "ST": lambda w: w.dframe(mk("SensorStateResponse", key=7, state=1.5)),
+    "DI": lambda w: w.dframe(mk("DeviceInfoResponse", name="dev")),
     "UK": lambda w: _raw(w, 9999, b"xx"),
     "BAD": lambda w: _raw(w, msg_id("SensorStateResponse"), b"\xff\xff\xff"),
     # framing-level garbage
@@ -66,7 +67,7 @@ ATOMS: dict[str, Callable[[ConnWorld], bytes]] = {
     "TAMPER": lambda w: _tamper(w),
 }
 NOISE_ONLY = {"NH", "NHELLO", "NSHAKE", "NHE", "TAMPER"}
-NEEDS_HANDSHAKE_DONE = {"H", "C", "BV", "BN", "BP", "DR", "DRESP", "PR", "PRESP", "ST", "UK", "BAD", "TAMPER"}
+NEEDS_HANDSHAKE_DONE = {"H", "C", "BV", "BN", "BP", "DR", "DRESP", "PR", "PRESP", "ST", "DI", "UK", "BAD", "TAMPER"}
 PLAIN_ONLY = {"ENC"}
 
 
